@@ -69,7 +69,7 @@ func (k *keyT) term() string {
 	if k.parent == nil {
 		return hx.App("KA", hx.Nat(k.atom))
 	}
-	return hx.App("KD", hx.Bytes(k.ctx), hx.Bytes(k.salt), k.parent.term())
+	return hx.App("KD", bz(k.ctx), bz(k.salt), k.parent.term())
 }
 
 func (k *keyT) desc() string {
@@ -125,7 +125,7 @@ func classify(err error) int {
 func c13(c *hx.Ctx) {
 	c.Type = "c13_case"
 	c.Agree = "c13_agree"
-	c.Rule = "pairs of DeriveKey / DeriveEd25519Key calls over keys k0..k3, keys derived from them (depth <= 3), nil and foreign keys, contexts incl. empty / 1 byte / zero bytes / longer than the 32-byte material, salts nil / empty / non-empty, lengths 0..200; pairs biased to differ in exactly one of key, context, salt, length; non-trivial = distinct pair where both calls succeed"
+	c.Rule = "contexts and salts in the size classes 63..1024 (30% of the picks) with last-byte and whitespace neighbours, recycled salt/out buffers; pairs of DeriveKey / DeriveEd25519Key calls over keys k0..k3, keys derived from them (depth <= 3), nil and foreign keys, contexts incl. empty / 1 byte / zero bytes / longer than the 32-byte material, salts nil / empty / non-empty, lengths 0..200; pairs biased to differ in exactly one of key, context, salt, length; non-trivial = distinct pair where both calls succeed"
 	keys := genKeys(c, 4)
 	realKey := map[string]crypto.PrivKey{}
 	var resolve func(k *keyT) (crypto.PrivKey, error)
@@ -419,8 +419,8 @@ func c13(c *hx.Ctx) {
 			"a": map[string]any{"context": string(a.ctx), "context_hex": hx.Hex(a.ctx), "salt_hex": hx.Hex(a.salt), "salt_nil": a.salt == nil, "key": a.p.desc(), "len": a.n, "class": ra.cls},
 			"b": map[string]any{"context": string(b.ctx), "context_hex": hx.Hex(b.ctx), "salt_hex": hx.Hex(b.salt), "salt_nil": b.salt == nil, "key": b.p.desc(), "len": b.n, "class": rb.cls},
 			"relation": r}
-		c.Case(hx.App("Derive2", hx.Bytes(a.ctx), hx.Bytes(a.salt), a.p.term(), hx.Nat(a.n),
-			hx.Bytes(b.ctx), hx.Bytes(b.salt), b.p.term(), hx.Nat(b.n), hx.Nat(ra.cls), hx.Nat(rb.cls), hx.Nat(r)), desc)
+		c.Case(hx.App("Derive2", bz(a.ctx), bz(a.salt), a.p.term(), hx.Nat(a.n),
+			bz(b.ctx), bz(b.salt), b.p.term(), hx.Nat(b.n), hx.Nat(ra.cls), hx.Nat(rb.cls), hx.Nat(r)), desc)
 		switch {
 		case len(a.ctx) == 0 || len(b.ctx) == 0:
 			c.Class("derive-key/empty-context")
@@ -539,7 +539,7 @@ func c13(c *hx.Ctx) {
 			"a": map[string]any{"context": string(a.ctx), "context_hex": hx.Hex(a.ctx), "salt_hex": hx.Hex(a.salt), "key": a.p.desc(), "class": ra.cls},
 			"b": map[string]any{"context": string(b.ctx), "context_hex": hx.Hex(b.ctx), "salt_hex": hx.Hex(b.salt), "key": b.p.desc(), "class": rb.cls},
 			"same_key": same}
-		c.Case(hx.App("DeriveEd2", hx.Bytes(a.ctx), hx.Bytes(a.salt), a.p.term(), hx.Bytes(b.ctx), hx.Bytes(b.salt), b.p.term(),
+		c.Case(hx.App("DeriveEd2", bz(a.ctx), bz(a.salt), a.p.term(), bz(b.ctx), bz(b.salt), b.p.term(),
 			hx.Nat(ra.cls), hx.Nat(rb.cls), hx.Bool(same)), desc)
 		c.Class("derive-ed25519")
 		if ra.cls == 0 && rb.cls == 0 {
@@ -574,7 +574,7 @@ func c14(c *hx.Ctx) {
 	c.Type = "c14_case"
 	c.ShardSize = 400
 	c.Agree = "c14_agree"
-	c.Rule = "IsEdLowOrder and PublicKeyToCurve25519 on: the 7 table rows, their sign-bit variants, every single-bit flip of every row, encodings of all 8-torsion points computed with edwards25519 ([l]P of random points) incl. non-canonical y+p forms, real public keys, random strings, lengths 0..64; X25519 agreement on real key pairs; non-trivial = distinct input that is classified low order or converts"
+	c.Rule = "every input also from a recycled buffer that held another valid key before (overwritten / wiped); IsEdLowOrder and PublicKeyToCurve25519 on: the 7 table rows, their sign-bit variants, every single-bit flip of every row, encodings of all 8-torsion points computed with edwards25519 ([l]P of random points) incl. non-canonical y+p forms, real public keys, random strings, lengths 0..64; X25519 agreement on real key pairs; non-trivial = distinct input that is classified low order or converts"
 	rows := extra25519.VerifEdBlacklist()
 	identity := edwards25519.NewIdentityPoint()
 	seen := map[string]bool{}
@@ -597,7 +597,7 @@ func c14(c *hx.Ctx) {
 			obs = 2
 		}
 		desc := map[string]any{"kind": "IsEdLowOrder", "ge": hx.Hex(ge), "len": len(ge), "class": class, "low_order": lo, "panicked": panicked}
-		c.Case(hx.App("LowOrd", hx.Bytes(ge), hx.Nat(obs)), desc)
+		c.Case(hx.App("LowOrd", bz(ge), hx.Nat(obs)), desc)
 		c.Class("classifier/" + class)
 		if lo {
 			c.Nontrivial("lo" + hx.Hex(ge))
@@ -622,7 +622,7 @@ func c14(c *hx.Ctx) {
 			cobs = 2
 		}
 		desc2 := map[string]any{"kind": "PublicKeyToCurve25519", "ge": hx.Hex(ge), "len": len(ge), "class": class, "is_point": isPoint, "converted": valid, "panicked": panicked2}
-		c.Case(hx.App("Convert", hx.Bytes(ge), hx.Bool(isPoint), hx.Nat(cobs)), desc2)
+		c.Case(hx.App("Convert", bz(ge), hx.Bool(isPoint), hx.Nat(cobs)), desc2)
 		c.Class("convert/" + class)
 		if valid {
 			c.Nontrivial("cv" + hx.Hex(ge))
